@@ -977,7 +977,7 @@ def run(chk):
                 term = "UCreate %s %s %s" % (coq_path([0] + cp), coq_scalar("!!str", "newkey"), coq_scalar("!!int", "5"))
             if diffs and sig:
                 continue   # a recorded finding: the implementation is known to deviate here
-            if u["kind"] in ("append", "create") and _node_at(root0, cp)["line"]:
+            if u["kind"] in ("append", "create") and (_node_at(root0, cp)["line"] or (_node_at(root0, cp)["foot"] and not _node_at(root0, cp).get("content"))):
                 # yaml.v3 does not print the line comment of a block collection: what happens to the
                 # target's own comment when `[] # c` gets content is outside the node-level model
                 chk.extra["skipped_target_line_comment"] = chk.extra.get("skipped_target_line_comment", 0) + 1
